@@ -10,6 +10,21 @@ CLAIMS = {
                   'token types are symbolic; each path yields the complete ExprKind tree, compared with an Annex B.3.1 precedence-climbing reference; mismatches are replayed through parse_program.',
              tech='SMT-guided bounded symbolic execution of rustc MIR of the generated parser (z3)', sect='§4 C01',
              note='Kernel K1 (+K2 when listed in evidence). Outside: all other productions, whole-grammar faithfulness, literal spelling (C09).'),
+ 'C02': dict(text='Bounded symbolic execution of rule visitors from MIR on program templates resolved by the real resolve_types, with identifiers symbolic over a small alphabet, compared with reference predicates written from the rule documentation; '
+                  'stages::semantic executed with every rule replaced by a nondeterministic stub (registration of every rule module, Err iff any rule fails, diagnostics concatenated). Mismatches are replayed through analyze().',
+             tech='SMT-guided bounded symbolic execution of rustc MIR (z3) with symbolic-key hash-map model', sect='§4 C02',
+             note='Kernels K1 (4 rules) and K3. Outside: the remaining rules, rule interaction on whole programs, derive(Recurse) traversal completeness (K2) unless listed in evidence.'),
+ 'C03': dict(text='Symbolic execution of FileBackedProject::semantic (parse/analyze as nondeterministic stubs, hash order nondeterministic) and of xform_toposort_declarations::apply on declaration pairs with symbolic names; '
+                  'the solver decides that no parse error, analysis error or declaration is lost. Models are replayed through Project::semantic / ironplcc check / analyze.',
+             tech='SMT-guided bounded symbolic execution of rustc MIR (z3)', sect='§4 C03',
+             note='Kernels K1, K3. Outside: per-rule behaviour in company of other declarations (argued from C02), sets larger than the bounds.'),
+ 'C06': dict(text='Symbolic execution of project.semantic under every hash iteration order, of toposort apply under every permutation of the declarations and every toposort tie-break, and of stages::resolve_types under file partitions, '
+                  'with reference edges symbolic; verdicts must equal the reference graph verdict whatever the order/partition.',
+             tech='SMT-guided bounded symbolic execution of rustc MIR (z3), nondeterministic contract models for hash order and toposort ties', sect='§4 C06',
+             note='Kernels K1-K3. Outside: order-independence of reported code/location through all eleven rules; CLI argument order (K4) unless listed.'),
+ 'C07': dict(text='Symbolic execution of the real graph-building visitor and DeclarationsGraph::sorted_ids over every directed graph on K nodes (one symbolic bit per edge) in three realisations; verdict compared with the transitive closure of the reference graph; mismatches replayed through analyze().',
+             tech='SMT-guided bounded symbolic execution of rustc MIR (z3), petgraph by contract', sect='§4 C07',
+             note='Kernel K1. Outside: graphs beyond the node bound, mixed realisations, alias-chain walk (K2) unless listed.'),
  'C04': dict(text='Kani/CBMC proof harnesses over the compiled ironplc-dsl numeric constructors (all FixedPoint values, real time crate) decide panic freedom; '
                   'failing checks come with concrete playback values that are replayed through the public API and through `check` of a program containing the literal.',
              tech='bounded model checking with Kani/CBMC (bit-precise, compiled code)', sect='§4 C04', kani=True,
